@@ -362,8 +362,6 @@ class PauliStringPhasorGate(raw_types.Gate):
         return self.dense_pauli_string.on(*qubits).to_z_basis_ops()
 
     def _decompose_(self, qubits: Sequence[cirq.Qid]) -> Iterator[cirq.OP_TREE]:
-        if len(self.dense_pauli_string) <= 0:
-            return
         to_z_ops = op_tree.freeze_op_tree(self._to_z_basis_ops(qubits))
         # Identity factors of the Pauli string take no part in the parity computation.
         qubits = [q for q, p in zip(qubits, self.dense_pauli_string.pauli_mask) if p]
